@@ -19,9 +19,14 @@ class Triple:
 
 
 def gen_triple(rng, malformed=None, long=False):
-    dt = rng.choice([600, 1200, 1800, 3600])
+    dt = rng.choice([600, 1200, 1800, 3600, 600, 1200, 1800, 3600, 300, 10800, 86400, 172800])
     t0 = (rng.randint(631152000, 1893456000) // dt) * dt
     nr = rng.randint(3, 40) if not long else rng.randint(1200, 2500)
+    outage = None
+    if dt >= 10800 and not long and rng.random() < 0.8:
+        # an instrument outage of more than a year in a coarse record (a funding gap, a lost logger)
+        outage = rng.randint(367, 800) * 86400
+        nr += outage // dt
     rain_ep = [t0 + i * dt for i in range(nr)]
     kind = rng.choice(["same", "same", "half", "double", "odd", "unaligned"])
     if kind == "same":
@@ -36,9 +41,13 @@ def gen_triple(rng, malformed=None, long=False):
         dz, off = dt, rng.choice([60, 300, dt // 2, dt - 60])
     # level record starts/ends before, at or after the rainfall record
     zs = t0 + off + rng.choice([-3, -1, 0, 0, 1, 2, 5]) * dz
-    span = rng.randint(2 * dt, (nr + 3) * dt)
+    span = rng.randint(2 * dt, (nr + 3) * dt) if outage is None else (nr + 2) * dt
     nz = max(3, span // dz)
     lev_ep = [zs + i * dz for i in range(nz)]
+    if outage is not None and nz > 12:
+        a = rng.randint(3, 8)
+        lev_ep = [e for i, e in enumerate(lev_ep) if i < a or lev_ep[i] - lev_ep[a] > outage]
+        nz = len(lev_ep)
     # gaps: drop ranges of samples (possibly leaving single isolated samples)
     removed = set()
     for _ in range(rng.choice([0, 0, 1, 1, 2, 3, 5])):
@@ -54,7 +63,7 @@ def gen_triple(rng, malformed=None, long=False):
     et_ep = [t0 + i * dt for i in range(-2, nr + 3)]
     et = [(e, rng.choice([0.0, 0.125, rng.uniform(0, 0.6)])) for e in et_ep]
     level = list(zip(lev_ep, vals))
-    note = "dt=%d level step=%d off=%d gaps=%d" % (dt, dz, off, len(removed))
+    note = "dt=%d level step=%d off=%d gaps=%d%s" % (dt, dz, off, len(removed), " outage=%dd" % (outage // 86400) if outage else "")
     if malformed == "nonuniform":
         # perturb one rainfall timestamp inside the water-level span, or drop one
         inside = [i for i, e in enumerate(rain_ep) if lev_ep[0] <= e <= lev_ep[-1]]
